@@ -1,5 +1,5 @@
 """Hand-run self-test of the front family's binding (not part of any registered command):
-   python3 lib/front_selftest.py corrupt   - corrupt 24 recorded fields of the last run's trace; Trace_Front must reject exactly those
+   python3 lib/front_selftest.py corrupt   - corrupt 26 recorded fields of the last run's trace; Trace_Front must reject exactly those
    python3 lib/front_selftest.py mutate    - mutate the specification in 14 places (scratch copy); real events must be rejected
 Both read /verif/work/C19/mc_front.trace.ndjson as left by `./check C19`."""
 import collections
@@ -39,6 +39,8 @@ def corrupt():
     plant("validate(ffi): the entry points disagree", lambda e: k(e)=='validate' and e['ffi'][0]=='ok' and not e['ffi'][1], lambda e: e.__setitem__('ffi', ['split']))
     plant("check_parse: typed and JSON-string entry points disagree", lambda e: k(e)=='checkParse' and e.get('ffi2')=='ok', lambda e: e.__setitem__('ffi2', 'split'))
     plant("format: JSON-string entry point disagrees", lambda e: k(e)=='format' and e['ffi'][0]=='ok', lambda e: e.__setitem__('ffi', ['split']))
+    plant("authorize: partial entry point decides the opposite on a concrete call", lambda e: k(e)=='authorize' and e['ffi'][0]=='ok' and e.get('partial',[''])[0]=='ok', lambda e: e.__setitem__('partial', ['ok', 'Deny' if e['partial'][1]=='Allow' else 'Allow']))
+    plant("authorize: partial entry point undecided on a concrete call", lambda e: k(e)=='authorize' and e['ffi'][0]=='ok' and e.get('partial',[''])[0]=='ok', lambda e: e.__setitem__('partial', ['ok', 'none']))
     plant("validate(api): error ids emptied", lambda e: k(e)=='validate' and e['api'][0]=='ok' and e['api'][1], lambda e: (e['api'].__setitem__(1, []), e['api'].__setitem__(3, True)))
     plant("cliValidate: exit 3 -> 0", lambda e: k(e)=='cliValidate' and e['cli']['exit']==3, lambda e: e['cli'].__setitem__('exit', 0))
     def deep(e):
